@@ -88,6 +88,9 @@ Proof. unfold sqrfree. destruct (Nfact =? 0); [constructor|]. cbv zeta.
   cbn [fst snd] in H. destruct H as [H1 H2]. destruct b; cbn [snd]; [assumption|].
   apply Forall_app. split; [assumption|constructor; [assumption|constructor]]. Qed.
 
+Lemma Forall_firstn' (Q : poly -> Prop) n : forall l, Forall Q l -> Forall Q (firstn n l).
+Proof. induction n as [|n IH]; intros l H; cbn [firstn]; [constructor|]. destruct H; constructor; auto. Qed.
+
 (* ---- the loop over the square-free parts *)
 Theorem cz_loop_spec : forall g i MOD Lf Le s Lf' Le' s', 0 <= i -> Forall canon g ->
   cz_loop p g i MOD Lf Le s = Some (Lf', Le', s') ->
@@ -110,7 +113,7 @@ Proof. induction g as [|gi g IH]; intros i MOD Lf Le s Lf' Le' s' Hi Cg H; cbn [
     cbn [gprod].
     eapply eqp_trans; [|apply eqp_mul; [apply (eqp_pwr _ _ (Z.to_nat (i + 1)) P1)|exact P2]].
     apply eqp_ev. intros x. rewrite !ev_pmulZ, ev_wprod_app by (rewrite repeat_length; reflexivity).
-    rewrite ev_wprod_repeat, !ev_pwr, !ev_pmulZ, ev_pwr, Z.pow_mul_l. ring. Qed.
+    rewrite ev_wprod_repeat. repeat (rewrite ?ev_pwr, ?ev_pmulZ). rewrite ?Z.pow_mul_l. ring. Qed.
 
 (* CZfactor: the returned factors with the returned multiplicities give, up to a constant, prod_j g_j^j *)
 Theorem czfactor_spec P MOD s Lf Le s' : czfactor p P MOD s = Some (Lf, Le, s') ->
@@ -119,7 +122,7 @@ Theorem czfactor_spec P MOD s Lf Le s' : czfactor p P MOD s = Some (Lf, Le, s') 
     eqp (pmulZ (wprod Lf Le) U) (gprod (firstn (Z.to_nat nb) g) 0).
 Proof. unfold czfactor. pose proof (sqrfree_canon (deg P + 1) P) as Cg.
   destruct (sqrfree p (deg P + 1) P) as [nb g]. cbn [fst snd] in *. intros H.
-  destruct (cz_loop_spec _ 0 MOD [] [] s Lf Le s' ltac:(lia) (Forall_firstn _ Cg) H) as [Nf [Ne [U [E1 [E2 [L [F [G [DU PP]]]]]]]]].
+  destruct (cz_loop_spec _ 0 MOD [] [] s Lf Le s' ltac:(lia) (Forall_firstn' _ _ _ Cg) H) as [Nf [Ne [U [E1 [E2 [L [F [G [DU PP]]]]]]]]].
   cbn [app] in E1, E2. subst. exists U. repeat split; auto. eapply Forall_impl; [|exact G]. cbn. intros; lia. Qed.
 
 End P.
